@@ -267,12 +267,13 @@ def _run(ctx):
         ph.mark('state-1')
         dom2 = ctx.domain(
             "state/all-labellings",
-            bound="every wrapper-free tree over <= 4 fields with every injective labelling of its leaves by a,b,c,d x {1,2,3}^k (well shaped) x every "
+            bound="every wrapper-free tree over <= 4 fields with every injective labelling of its leaves by a,b,c,d (the alphabetical ones are in state/full) x {1,2,3}^k (well shaped) x every "
             "non-empty combiner subset",
             rule="as state/full",
             exhaustive=True,
         )
-        extra = SP.splitter_trees(H.FIELDS, 4, max_wrappers=0, labellings="all")
+        seen = {SP.canon(t) for t in trees}
+        extra = [t for t in SP.splitter_trees(H.FIELDS, 4, max_wrappers=0, labellings="all") if SP.canon(t) not in seen]
         tasks = [(SP.to_json(t), H.all_lens(SP.fields_of(t), 1, 3)) for t in extra]
         skipped += _collect(ctx, dom2, H.pmap(_w_state, tasks, chunksize=8))
         ph.mark('state-2')
